@@ -303,7 +303,17 @@ static void step(World& w, const std::string& key0, const H128& h0, uint64_t sig
     }
     w.dropDead();
     Cmp c(w);
-    if (!c.bindNew() || !c.compareAll()) { viol(opn + ":mismatch-" + c.slug, c.detail); return; }
+    if (!c.bindNew() || !c.compareAll()) {
+        viol(opn + ":mismatch-" + c.slug, c.detail);
+        if (op.code == OP_RWT) tr.kind = "replaceWholeText:mismatch-structure";   // one root cause (backwards walk enters the preceding element), several first symptoms
+        if (treeOp && op.a >= 0 && w.H(op.a) && c.slug == "structure") {
+            // an inserted node that is not the first child but carries the hidden FIRSTCHILD flag (copied by the clone constructor)
+            const RNode& N = w.ref.d.n[op.a];
+            DOMNodeImpl* ni = nodeImpl(w.H(op.a));
+            if (N.parent >= 0 && !w.ref.d.n[N.parent].kids.empty() && w.ref.d.n[N.parent].kids.front() != op.a && ni && ni->isFirstChild()) tr.kind = "stale-FIRSTCHILD-flag-on-inserted-node";
+        }
+        return;
+    }
     std::string islug, idetail;
     if (!invariants(w, islug, idetail)) { viol(opn + ":invariant-" + islug, idetail); return; }
     if (o.hasRet && e.ret != -2) {
@@ -852,6 +862,8 @@ int main(int argc, char** argv) {
     if (deadlineHit) g_total["deadline_skipped"] += 1;
     if (fix && !closed && !deadlineHit) g_total["deadline_skipped"] += 1;   // layer cap reached without closure: not exhaustive
 
+    clock_gettime(CLOCK_MONOTONIC, &ts);
+    double exploreWall = ts.tv_sec + ts.tv_nsec * 1e-9 - t0;
     // ---- report pass: writes the result document
     Runner R;
     R.name = a.str("space", fix ? "fixpoint" : "bfs");
@@ -869,7 +881,7 @@ int main(int argc, char** argv) {
     for (size_t i = 0; i < g_active.size(); i++) if (g_active[i]) { if (!act.empty()) act += ","; act += std::to_string(i); }
     R.extra_json = std::string("\"depth\":") + std::to_string(completedDepth) + ",\"alphabet\":" + std::to_string(g_total["alphabet_transitions_of_initial_state"]) +
                    ",\"bounds\":{\"mode\":" + jstr(fix ? "fixpoint-structural" : "bounded-full") + ",\"requested_depth\":" + std::to_string(fix ? maxLayers : depth) +
-                   ",\"frontier_sizes\":" + ls + ",\"closed\":" + (closed ? "true" : "false") + ",\"active_nodes\":" + jstr(act) + ",\"last_layer_reduced_operands\":" + (reduceLast ? "true" : "false") + "}";
+                   ",\"frontier_sizes\":" + ls + ",\"closed\":" + (closed ? "true" : "false") + ",\"active_nodes\":" + jstr(act) + ",\"last_layer_reduced_operands\":" + (reduceLast ? "true" : "false") + ",\"explore_wall_s\":" + std::to_string((int)exploreWall) + "}";
     int r = R.run();
     if (r == -2) return 3;
     if (r < 0) return 2;
